@@ -15,6 +15,11 @@ def use_repo():
     if REPO not in sys.path:
         sys.path.insert(0, REPO)
     import kappadata  # noqa
+    try:
+        import torch
+        torch.set_num_threads(1)
+    except Exception:
+        pass
     assert os.path.realpath(os.path.dirname(os.path.dirname(kappadata.__file__))) == os.path.realpath(REPO), \
         f"kappadata imported from {kappadata.__file__}, expected under {REPO}"
 
